@@ -874,7 +874,7 @@ def compare_run(root, opts, infos, pred, obs):
             pos = nxt
             orig = by_prov[name]["content"].decode("utf-8", "surrogateescape")
             res = cl.apply_unified_diff(orig, body)
-            if res is None or res.rstrip("\n") != bytes_.rstrip("\n"):
+            if res is None or res != bytes_:
                 res2 = cl.apply_unified_diff(orig.replace("\r\n", "\n"), body) if "\r\n" in orig else None
                 if res2 is not None and res2.rstrip("\n") == bytes_.rstrip("\n"):
                     probs["diffapply"].append(f"{name}: CRLF-ORIGINAL: the printed diff omits the carriage returns of the original's lines, so it does not apply to the original (it applies to the original without them and then gives the --print-only bytes)")
@@ -1024,6 +1024,14 @@ def c06(ctx):
     for k, sc in enumerate(make_scenarios(ctx, gcases, min(len(gcases), 15 if ctx.tier == "quick" else 300), rng, {"imports-only", "guard-miss"}) if gcases else []):
         sc.id = f"g{k}"
         scen.append(sc)
+    # the same metavariable name with another kind in another change of the patch, probed on an earlier file of the run by
+    # code of the other kind: the files that only look like instances stay as they are
+    for k, (k1, k2) in enumerate((("expression", "identifier"), ("identifier", "expression"), ("expression", "identifier"))):
+        two = (f"@@\nvar x {k1}\n@@\n-foo(x, 0)\n+foo2(x)\n", f"@@\nvar x {k2}\n@@\n-bar(x)\n+baz(x)\n")
+        files = {"a.go": "package a\n\nfunc f() {\n\tfoo(h(1), 1)\n\tfoo(p.q, 2)\n\tfoo(v, 3)\n}\n",
+                 "b.go": "package a\n\nfunc g() {\n\t" + ("bar(h(2))\n\tbar(p.q)" if k2 == "identifier" else "bar()\n\tbar(v, w)") + "\n}\n",
+                 "c.go": "package a\n\nfunc k() {\n\tfoo(T{}, 0)\n\tbar(v)\n}\n"}
+        scen.append(Scenario(f"kinds{k}", ["\n".join(two)] if k < 2 else list(two), files, "one name, two kinds, in two changes"))
     scen += corpus_scenarios("C06")
     decisions.update(model_decisions(ctx, scen))
     library_reuse_family(ctx, "C06: a source no change applies to comes back as it is, with no error, whatever was applied before")
@@ -1183,6 +1191,13 @@ def c12_body(ctx, post):
     # F17: a patched file with CRLF line endings
     sc = Scenario("f17", ["@@\n@@\n-zzz(1)\n+yyy(1)\n"], {"crlf.go": "package odd\r\n\r\nfunc crlf() {\r\n\tzzz(1)\r\n}\r\n"}, "crlf-matched")
     run_scenarios(ctx, [sc], [["diff"], ["print"], []], {"write", "stdout", "desc", "diffapply"}, None)
+    # how the file ends: blank lines, blanks, a comment, no newline at all - the printed diff must take the original to the
+    # very bytes the other modes give, its last line included
+    ends = ["}\n\n\n", "}\n\n", "}\n\t\n", "}", "}\n\n// the end\n\n\n", "}\n/* tail */", "}\n\n\n\n\n\n\n\n"]
+    scs = [Scenario(f"ending{k}", ["@@\n@@\n-zzz(1)\n+yyy(1)\n"],
+                    {"e.go": "package odd\n\nfunc tail() {\n\tzzz(1)\n" + e, "f.go": "package odd\n\nfunc other() {\n\tkeep(2)\n" + e}, "file ending")
+           for k, e in enumerate(ends)]
+    run_scenarios(ctx, scs, [["diff"], ["print"], [], ["diff", "si"]], {"write", "stdout", "desc", "diffapply"}, None)
 
 WRITE_SYSCALLS = "openat,open,creat,rename,renameat,renameat2,unlink,unlinkat,mkdir,mkdirat,rmdir,chmod,fchmod,fchmodat,chown,fchown,truncate,ftruncate,link,linkat,symlink,symlinkat,utimensat,utimes"
 
@@ -2164,10 +2179,15 @@ def c16(ctx):
             ctx.nontrivial.add("sysfault:" + ",".join(specs))
             probs = []
             kept = 0
+            # a fault injected into write(2) can hit the write that carries the diagnostic as well (strace counts per thread):
+            # a failing run whose stderr is empty altogether lost its message to the fault, not to gopatch
+            stderr_lost = any(sp.startswith("write:") for sp in specs) and r.returncode != 0 and not e.strip()
+            if stderr_lost:
+                ctx.count("syscall_faults_that_hit_stderr")
             for nm, got, old_, new_ in (("a.go", ga, a0, a1), ("b.go", gb, b0, b1)):
                 if got == old_:
                     kept += 1
-                    if f'"{os.path.join(root, nm)}"' not in e and nm not in e:
+                    if f'"{os.path.join(root, nm)}"' not in e and nm not in e and not stderr_lost:
                         probs.append(f"{nm} was not rewritten and stderr does not say so")
                 elif got == new_:
                     if f"could not write \"{os.path.join(root, nm)}\"" in e:
@@ -2328,6 +2348,16 @@ def gen_tree(rng, depth):
             n = rng.choice(DIR_NAMES)
             if n not in t:
                 t[n] = gen_tree(rng, depth - 1)
+    if depth > 0 and rng.random() < 0.25:
+        # a directory next to files whose names begin with the directory's name: the walk meets them in another order
+        # ("util" < "util.go" by name) than their full paths sort ("util.go" < "util/x.go": '.', '-' sort before '/')
+        ds = [n for n, v in t.items() if isinstance(v, dict)] or ["util"]
+        d = rng.choice(ds)
+        if d not in t:
+            t[d] = {"helper.go": "f", "z.go": "f"}
+        for suffix in rng.sample([".go", "-x.go", "_test.go", "0.go", ".go.go"], rng.randint(1, 3)):
+            if d + suffix not in t:
+                t[d + suffix] = "f"
     if rng.random() < 0.3:
         for ln, target in (("link.go", "a.go"), ("linkdir", "src"), ("dangling.go", "nowhere")):
             if rng.random() < 0.5 and ln not in t:
@@ -2416,6 +2446,13 @@ def c15(ctx):
         cands += [os.path.join(root, p) for p in links[:4]] + [os.path.join(root, p) + "/..." for p in links[:2]] + \
                  [p + "/..." for p in links[:2]] + [os.path.join(root, f) for f in files[:2] if safe(f)]
         args = [rng.choice(cands) for _ in range(rng.randint(1, 4))]
+        if rng.random() < 0.15:
+            # overlap on purpose: a directory (or everything) and a file below it, in either order
+            fs = [f for f in files if safe(f)]
+            if fs:
+                f_ = rng.choice(fs)
+                top = rng.choice([".", "./...", os.path.dirname(f_) or "."])
+                args = rng.choice([[top, f_], [f_, top], [top, f_, f_], [top, "./" + f_]])
         if rng.random() < 0.05:
             args.append("does_not_exist")
         jobs.append((k, root, cwd_name, t, args))
@@ -2958,6 +2995,21 @@ def c13(ctx):
             if done:
                 batch.append({"id": f"o{i}v{j}", "patches": [text], "src": c["src"]})
                 meta_info[f"o{i}v{j}"] = (f"o{i}", done)
+    # the package clause of the file written as a context line on top of the body, and the code moved two blanks to the right
+    # after the marker of every line: the same change
+    for i, c in enumerate(cases[: (60 if ctx.tier == "quick" else 2000)]):
+        pt = c["patches"][0]
+        mpk = re.search(r"^package (\w+)", c["src"], re.M)
+        if not mpk or re.search(r"^[-+ ]?\s*(package|import)\b", pt, re.M) or "`" in pt or "@@\n" not in pt:
+            continue
+        head, _, body = pt.rpartition("@@\n")
+        blines = [l for l in body.split("\n")]
+        moved = "\n".join((l[:1] + "  " + l[1:]) if l[:1] in "-+ " and l.strip() else l for l in blines)
+        for tag, text in (("package-clause", head + "@@\n package " + mpk.group(1) + "\n\n" + body),
+                          ("package-clause+code-moved-right", head + "@@\n package " + mpk.group(1) + "\n\n" + moved)):
+            if f"o{i}" in {b["id"] for b in batch[-400:]} or True:
+                batch.append({"id": f"o{i}p{tag}", "patches": [text], "src": c["src"]})
+                meta_info[f"o{i}p{tag}"] = (f"o{i}", [tag])
     # directed table: pattern lines that carry quote characters of another literal kind, comment markers inside
     # literals, the '#' of the patch language inside literals; a '#' line inserted after every line in turn
     for qi, (qp, qs) in enumerate(QUOTE_TABLE):
@@ -2980,6 +3032,8 @@ def c13(ctx):
         for b in batch:
             f.write(json.dumps(b) + "\n")
     res = run_engine_batch(ctx, ["-inputs", p], "c13")
+    # however a patch is laid out, each elision is recorded where its "..." stands in the patch file (front-end chain)
+    split_tie(ctx, [{"id": b["id"], "patch": b["patches"][0]} for b in batch])
     by_id = {inp["id"]: (inp, orig, impl, model, same) for inp, orig, impl, model, same in res}
     skipped = set(b["id"] for b in batch) - set(by_id)
     for vid, (oid, done) in meta_info.items():
@@ -3493,6 +3547,57 @@ def c10(ctx):
     if missing:
         ctx.broken("harness", f"{len(missing)} cases of the cross product were rejected, e.g. {missing[0]['patches'][0]!r}")
     engine_projection(ctx, res, {"decisions", "where"})
+    # the same guards in the second change of a patch whose first change has just added an import to the file (next to the
+    # imports that are there): a guard speaks about the file as the change finds it
+    first = "@@\nvar y expression\n@@\n+import \"example.com/added\"\n\n-prep(y)\n+added.Prep(y)\n"
+    cases2, exp2 = [], {}
+    def src_of(fspec, layout, extra=()):
+        imports = list(extra) + ([fspec] if fspec else [])
+        if layout == "grouped":
+            imports = ['"fmt"'] + imports + ['str "strings"']
+        if not imports:
+            imp = ""
+        elif layout == "single" and len(imports) == 1:
+            imp = "import " + imports[0] + "\n\n"
+        else:
+            imp = "import (\n" + "".join("\t" + i + "\n" for i in imports) + ")\n\n"
+        return "package a\n\n" + imp + "func f() {\n\tprep(0)\n\tfoo(1)\n\tpkg.Use(foo(2))\n}\n"
+    for pf, pspec in pforms.items():
+        if not pspec:
+            continue
+        for ff, fspec in fforms.items():
+            for layout in ("single", "grouped"):
+                meta = "var nm identifier\n" if pf == "metavar" else ""
+                second = "@@\nvar x expression\n" + meta + "@@\n import " + pspec + "\n\n-foo(x)\n+bar(x)\n"
+                for how in ("one-file", "two-files"):
+                    cid = f"y{len(cases2)}"
+                    cases2.append({"id": cid, "patches": [first + "\n" + second] if how == "one-file" else [first, second], "src": src_of(fspec, layout)})
+                    exp2[cid] = (expect(pf, ff), f"after a change that added an import: patch import {pf}, file import {ff}, {layout}, {how}")
+    # guards on the import the first change added, and on its unnamed neighbour under a name it does not have
+    for layout in ("single", "grouped"):
+        for gi, (guard, want) in enumerate((('"example.com/added"', True), ('added "example.com/added"', False), ('zz "example.com/added"', False),
+                                            ('"example.com/other"', True), ('errs "example.com/other"', False), ('"example.com/absent"', False))):
+            second = "@@\nvar x expression\n@@\n import " + guard + "\n\n-foo(x)\n+bar(x)\n"
+            for how in ("one-file", "two-files"):
+                cid = f"y{len(cases2)}"
+                cases2.append({"id": cid, "patches": [first + "\n" + second] if how == "one-file" else [first, second],
+                               "src": src_of(None, layout, extra=['"example.com/other"'])})
+                exp2[cid] = (want, f"guard {guard} after a change that added \"example.com/added\" next to the unnamed \"example.com/other\", {layout}, {how}")
+    res2 = run_engine_batch(ctx, ["-inputs", write_jsonl(ctx, cases2)], "c10y")
+    ctx.extra["guards_after_an_import_edit"] = len(cases2)
+    for inp, orig, impl, model, same in res2:
+        want, desc = exp2[inp["id"]]
+        tr = impl["trace"]
+        if len(tr) != 2 or not tr[0].startswith("k"):
+            ctx.broken("generator", f"{desc}: the first change did not apply (trace {tr})")
+            continue
+        got = tr[1].startswith("k")
+        ctx.count("table_after_edit:" + ("applies" if want else "guarded"))
+        if got != want:
+            ctx.violation(f"{desc}: the change {'applied' if got else 'did not apply'} but the documented table says it {'applies' if want else 'must not apply'}",
+                          replay_payload(inp, impl, model))
+    engine_projection(ctx, res2, {"decisions", "where"})
+    cli_projection(ctx, res2, {"decisions", "where"}, 40 if ctx.tier == "quick" else len(res2))
     # duplicate import paths: the known divergence (F8) and the generated stream
     dup = {"id": "f8", "patches": ["@@\nvar x expression\n@@\n import bar \"example.com/pkg\"\n\n-foo(x)\n+bar.Foo(x)\n"],
            "src": "package a\n\nimport (\n\t\"example.com/pkg\"\n\tbar \"example.com/pkg\"\n)\n\nfunc f() { foo(1); pkg.X(); bar.Y() }\n"}
